@@ -186,6 +186,12 @@ def post_exec(module):
 
 class _Finder(importlib.abc.MetaPathFinder):
     def find_spec(self, fullname, path, target=None):
+        if fullname == "metomi":
+            # the namespace package itself, rooted in the tree under test (no
+            # dependence on an editable install being visible to this venv)
+            spec = importlib.machinery.ModuleSpec("metomi", None, is_package=True)
+            spec.submodule_search_locations = [os.path.join(REPO, "metomi")]
+            return spec
         if fullname != PKG and not fullname.startswith(PKG + "."):
             return None
         rel = fullname.split(".")
